@@ -1,6 +1,8 @@
 """Helpers shared by the query-level properties: reference answers, features, comparisons."""
 from __future__ import annotations
 
+import json
+
 import itertools
 from collections import Counter
 from typing import Any, Dict, List
@@ -110,6 +112,18 @@ def case_features(case, objs=None) -> List[str]:
         return sorted(f)
     if A.not_under_not(c):
         f.add("not_under_not")
+    if case.get("share_terms"):
+        seen, rep = set(), False
+        occ = [("truth", n[1]) for n in A.walk(c) if n[0] == "truth"] + [("value", t) for t in A.terms_of(c)] + \
+              [("value", t) for t in case.get("sel", [])]
+        for _, t in occ:
+            while t[0] in ("attr", "idx", "call"):
+                key = json.dumps(t, sort_keys=True)
+                rep = rep or key in seen
+                seen.add(key)
+                t = t[1]
+        if rep:
+            f.add("shared_term_objects")
     for n in A.walk(c):
         k = n[0]
         if k in ("and", "or", "not"):
@@ -162,7 +176,7 @@ def case_features(case, objs=None) -> List[str]:
         return dec(v) if f == "o" else (tuple(v) if f == "tags" else v)
     empty_vars = {i for i, v in enumerate(case["vars"])
                   if not [j for j in case["doms"][v["dom"]]
-                          if case["ents"][j].get("cls", "Ent") in ("Ent", "EntSub", "EntSubSub", "EntPlain", "EntV")
+                          if case["ents"][j].get("cls", "Ent") in ("Ent", "EntKw", "EntSub", "EntSubSub", "EntPlain", "EntV")
                           and all(_rec_val(case["ents"][j], f) == dec(c) for f, c in v.get("kw", []))]}
     if empty_vars:
         def under(n, inside):
@@ -172,6 +186,8 @@ def case_features(case, objs=None) -> List[str]:
                 return any(under(x, inside) for x in n[2])
             if n[0] in ("not", "forall"):
                 return under(n[2], inside)
+            if n[0] == "sub":
+                return under(n[3], inside)
             return inside and bool(A.cond_vars(n) & empty_vars)
         if under(c, False):
             f.add("empty_domain_under_disjunction")
@@ -239,11 +255,22 @@ def all_vars_selected(case) -> bool:
     return set(used_vars(case)) <= plain
 
 
-def run_query(case, objs, negate=0, quant=None):
-    """Build freshly and evaluate; returns (rows, built)."""
+class ReevaluationDiffers(Exception):
+    pass
+
+
+def run_query(case, objs, negate=0, quant=None, times=1):
+    """Build freshly and evaluate; returns (rows, built).  With times > 1 the same query object is evaluated again and
+    every evaluation must return the row set of the first one (ReevaluationDiffers otherwise)."""
     built = build_query(case, objs, negate=negate, quant=quant)
     res = list(built.q.evaluate())
-    return rows_of(built, res), built
+    first = rows_of(built, res)
+    for n in range(2, times + 1):
+        again = rows_of(built, list(built.q.evaluate()))
+        if {ident(r) for r in again} != {ident(r) for r in first}:
+            raise ReevaluationDiffers(f"evaluation {n} of the same query object gave {show_rows(again)}, the first one "
+                                      f"{show_rows(first)}")
+    return first, built
 
 
 def row_consistency(case, rows):
@@ -274,4 +301,5 @@ def render_query(case):
             "doms": case["doms"], "dom_kind": case.get("dom_kind"),
             "cond": A.r_cond(case["cond"]) if case.get("cond") is not None else None,
             "split_top": case.get("split_top"),
-            "select": f"{case.get('desc')}[{', '.join(A.r_term(t) for t in case['sel'])}]", "quant": case.get("quant", "an")}
+            "select": f"{case.get('desc')}[{', '.join(A.r_term(t) for t in case['sel'])}]", "quant": case.get("quant", "an"),
+            **({"earlier_query_sharing_the_expression_objects": A.r_cond(case["prelude"])} if case.get("prelude") is not None else {})}
